@@ -15,7 +15,7 @@ META = {
     "technique": "Lean 4 proof (invariant over all outcome sequences, case analysis by simp/omega) + replay of real read() outcome sequences + L-api oracle with short-write injection",
 }
 
-THEOREMS = ["C14.read_conservation", "C14.read_at_most_length", "C14.step_spec", "C14.read_len_pos", "C14.write_conservation", "C14.write_len_pos", "C14.barrier_runs_between", "C14.barrier_replay_sound"]
+THEOREMS = ["C14.read_conservation", "C14.read_at_most_length", "C14.step_spec", "C14.read_len_pos", "C14.write_conservation", "C14.write_len_pos", "C14.barrier_runs_between", "C14.barrier_replay_sound", "C14.cleanup_after_all_handlers", "C14.cleanup_is_final", "C14.cleanup_replay_complete", "C14.cleanup_replay_quiet", "C14.cleanup_reachable"]
 
 
 def gen_lines(r, n):
@@ -98,7 +98,7 @@ def io_oracle(line, out):
 def run(ctx):
     ctx.proof("DispatchVerif.Props.C14", THEOREMS)
     ctx.assumptions += ["read() returns between 1 and the requested number of bytes, 0 at end of file, or fails (kernel contract)",
-                        "channel orchestration other than the barrier clause (submission order of stream operations, close, cleanup): observed, not proved", "the DOP_DELIVER interval timer is not modelled (no interval set by the harness)"]
+                        "channel orchestration other than the barrier and cleanup clauses (submission order of stream operations): observed, not proved", "the DOP_DELIVER interval timer is not modelled (no interval set by the harness)"]
     drv = ctx.driver()
     h = ctx.harness("io", extra=["-ldl"])
     lines = gen_lines(ctx.rng.fork("io"), 6000 if ctx.thorough else 700)
@@ -196,6 +196,10 @@ def run(ctx):
     # resume, barrier blocks) replayed through IoCh.exec; the barrier clause evaluated on the same runs
     run_traces(ctx, "tr_iobar", [[ctx.seed * 10 + i, 1500 if ctx.thorough else 300] for i in range(3 if ctx.thorough else 2)], "iobar",
                r"explained-by-IoCh.exec (\d+)", "L-trace io barrier", "iobar", timeout=200)
+    # cleanup orchestration: the recorded history of the descriptor entry's close queue (suspensions / resumptions, handler calls,
+    # cleanup handlers) replayed through IoHold.astep; the cleanup clause evaluated on the same runs
+    run_traces(ctx, "tr_iohold", [[ctx.seed * 10 + i, 150 if ctx.thorough else 30] for i in range(4 if ctx.thorough else 2)], "iohold",
+               r"explained-by-IoHold.astep (\d+)", "L-trace io cleanup", "iohold", timeout=300)
 
 
 def replay(ctx, obj):
